@@ -186,3 +186,33 @@ pub fn main(args: &[String]) -> i32 {
     println!("{}", serde_json::to_string(&summary).unwrap());
     0
 }
+
+/// `pfv replay-paths <paths.json> <out.ndjson>`: force model-generated opcode paths
+/// through the real generator; every step must be in the implementation's enabled set
+pub fn replay_paths(args: &[String]) -> i32 {
+    #[derive(Deserialize)]
+    struct PathJob { id: u64, cfg: Cfg, path: Vec<u8> }
+    let jobs: Vec<PathJob> = serde_json::from_str(&std::fs::read_to_string(&args[0]).expect("read")).expect("parse");
+    std::panic::set_hook(Box::new(|_| {}));
+    let mut out = std::io::BufWriter::new(std::fs::File::create(&args[1]).expect("create"));
+    for j in jobs {
+        let mut g = fresh(&j.cfg);
+        let mut failed_at: i64 = 0;
+        let mut emitted: Vec<u8> = Vec::new();
+        let mut states: Vec<Value> = Vec::new();
+        for (k, b) in j.path.iter().enumerate() {
+            let Some(op) = op_by_byte(*b) else { failed_at = k as i64 + 1; break; };
+            if !g.verif_valid_opcodes().contains(&op) {
+                failed_at = k as i64 + 1;
+                break;
+            }
+            match force(&mut g, op, 7 + k as u64) {
+                Ok(bytes) => { emitted.push(bytes.first().copied().unwrap_or(0)); }
+                Err(_) => { failed_at = k as i64 + 1; break; }
+            }
+            states.push(proj_json(&proj(&g)));
+        }
+        writeln!(out, "{}", json!({"id": j.id, "failed_at": failed_at, "emitted": emitted, "states": states})).unwrap();
+    }
+    0
+}
